@@ -55,7 +55,7 @@ func runReplays(prop, tier, work, replayDir string, byFn map[string]*merged, ord
 			v := &m.Violations[i]
 			final := filepath.Join(replayDir, fmt.Sprintf("%s-%s-%d.json", prop, fn, i))
 			rf := replayFile{Harness: fn, Tier: tier, Script: v.Script, Kind: "violation", Label: v.Label, Known: v.Known, Inputs: v.Inputs, Events: v.Events,
-				Pin: &PinFile{Values: v.Pinned, Chooses: v.Chooses}}
+				Pin: &PinFile{Values: v.Pinned, FValues: v.PinnedF, Chooses: v.Chooses}}
 			it := &nativeItem{fn: fn, viol: v, final: final}
 			if m.H.Native && v.Script != nil {
 				rf.Replay = "native"
@@ -163,7 +163,7 @@ func runReplays(prop, tier, work, replayDir string, byFn map[string]*merged, ord
 		var jobs []Job
 		for _, it := range interp {
 			m := byFn[it.fn]
-			jobs = append(jobs, Job{Pkg: m.H.Pkg, Fn: it.fn, ShardN: 1, Thorough: tier == "thorough", Pin: &PinFile{Values: it.viol.Pinned, Chooses: it.viol.Chooses}})
+			jobs = append(jobs, Job{Pkg: m.H.Pkg, Fn: it.fn, ShardN: 1, Thorough: tier == "thorough", Pin: &PinFile{Values: it.viol.Pinned, FValues: it.viol.PinnedF, Chooses: it.viol.Chooses}})
 		}
 		rs := runJobs(l, jobs, 8, nil)
 		for i, it := range interp {
